@@ -177,14 +177,30 @@ func (r *qLogReader) seekRecord(ctx context.Context, olderThan time.Time) (err e
 		return r.SeekStart()
 	}
 
-	err = r.seekTS(ctx, olderThan.UnixNano())
-	if err == nil {
-		// Read to the next record, because we only need the one that goes
-		// after it.
-		_, err = r.ReadNext()
+	ts := olderThan.UnixNano()
+	err = r.seekTS(ctx, ts)
+	if err != nil {
+		return err
 	}
 
-	return err
+	// Read to the next record, because we only need the one that goes after
+	// it.
+	line, err := r.ReadNext()
+	if err != nil {
+		return err
+	}
+
+	if readQLogTimestamp(ctx, r.logger, line) != ts {
+		// seekTS also succeeds when there is no record with this timestamp
+		// but all records of the file it stopped at are older, for example
+		// when olderThan is the time of an entry that is still in the memory
+		// buffer.  In that case the record just read is the newest one that
+		// is older than olderThan, and it must not be skipped, so position
+		// the reader in front of it again.
+		return r.seekTS(ctx, ts)
+	}
+
+	return nil
 }
 
 // setQLogReader creates a reader with the specified files and sets the
